@@ -27,6 +27,7 @@
 #include <sstream>             // for stringstream
 #include <string>              // for string, operator<<, char_traits, alloc...
 #include <tuple>               // for tie, tuple
+#include <stdio.h>             // for ferror, stdout
 #include <utility>             // for pair, make_pair, move
 #include <vector>              // for vector
 
@@ -170,6 +171,21 @@ namespace
     return std::make_pair(ok, v);
   }
 
+  // Convert the result of a command into an exit status, but first
+  // make sure that everything the command wrote to the standard
+  // output was actually accepted: an exit status of zero must mean
+  // that the output is complete.
+  int finish(bool command_succeeded)
+  {
+    std::cout.flush();
+    if (!std::cout.good() || ferror(stdout))
+      {
+	std::cerr << "error: failed to write to standard output\n";
+	return 1;
+      }
+    return command_succeeded ? 0 : 1;
+  }
+
 std::unique_ptr<std::map<std::string, std::string>> option_help;
 
 std::unique_ptr<std::map<std::string, std::string>> make_option_help()
@@ -304,7 +320,7 @@ int main (int argc, char *argv[])
 	case OPT_HELP:
 	  {
 	    DFS::CommandHelp help;
-	    return help.invoke(storage, ctx, extra_args) ? 0 : 1;
+	    return finish(help.invoke(storage, ctx, extra_args));
 	  }
 	}
     }
@@ -330,7 +346,7 @@ int main (int argc, char *argv[])
 	{
 	  storage.show_drive_configuration(std::cerr);
 	}
-      return instance->invoke(storage, ctx, extra_args) ? 0 : 1;
+      return finish(instance->invoke(storage, ctx, extra_args));
     }
   catch (std::exception& e)
     {
